@@ -596,6 +596,57 @@ func sameSliceAfter(sorted, later ssa.Value, at *ssa.Call) bool {
 			return false
 		}
 	}
+	// closures that capture the variable and write it (appending callbacks): none may run after the sort
+	if al, ok := u1.X.(*ssa.Alloc); ok && al.Referrers() != nil {
+		for _, ref := range *al.Referrers() {
+			mc, ok := ref.(*ssa.MakeClosure)
+			if !ok {
+				continue
+			}
+			cf, _ := mc.Fn.(*ssa.Function)
+			if cf == nil {
+				continue
+			}
+			writes := false
+			for i, b := range mc.Bindings {
+				if b == ssa.Value(al) && i < len(cf.FreeVars) {
+					for _, nf := range core.Nest(cf) {
+						core.InstrsOf(nf, func(in ssa.Instruction) {
+							if st, ok := in.(*ssa.Store); ok && (st.Addr == ssa.Value(cf.FreeVars[i]) || freeVarBinding(st.Addr) == ssa.Value(al)) {
+								writes = true
+							}
+						})
+					}
+				}
+			}
+			if !writes {
+				continue
+			}
+			// is the closure invoked (or handed to someone) after the sort?
+			ranLater := false
+			core.InstrsOf(at.Parent(), func(in ssa.Instruction) {
+				c := core.CallOf(in)
+				if c == nil {
+					return
+				}
+				later := after[in.Block()] || (in.Block() == at.Block() && core.Precedes(at, in))
+				if !later {
+					return
+				}
+				if core.Resolve(c.Value) == ssa.Value(mc) || c.Value == ssa.Value(mc) {
+					ranLater = true
+				}
+				for _, a := range c.Args {
+					if core.Resolve(a) == ssa.Value(mc) || a == ssa.Value(mc) {
+						ranLater = true
+					}
+				}
+			})
+			if ranLater {
+				return false
+			}
+		}
+	}
 	return true
 }
 
@@ -608,6 +659,23 @@ func spilledParam(v ssa.Value) ssa.Value {
 				return pa
 			}
 		}
+	}
+	return v
+}
+
+
+// freeVarBinding: for a (possibly nested) closure's free variable, the variable of the enclosing function it is bound to.
+func freeVarBinding(v ssa.Value) ssa.Value {
+	for i := 0; i < 4; i++ {
+		fv, ok := v.(*ssa.FreeVar)
+		if !ok {
+			return v
+		}
+		b := core.BindingOf(fv)
+		if b == nil {
+			return nil
+		}
+		v = b
 	}
 	return v
 }
